@@ -176,6 +176,15 @@ def run(tier, seed):
         if sample is None:
             b = next(x for x in behs if len(x["stmts"]) == 3)
             sample = {"statements": b["stmts"], "ddl": A.render(b, b["stmts"], 0), "expected": A.expected_entities(b, b["stmts"])}
+    # code -> spec (drift channel): per-line events of the real assembler on the corpus, all fields
+    from .. import trace_asm as TA
+    corp = CP.harvest()
+    traces = TA.record([(r["text"], r["ctor"]) for r in corp])
+    nacc, rejs, rt = TA.validate(traces, strict=True)
+    states += rt.distinct if rt else 0
+    trans += rt.generated if rt else 0
+    cov["corpus_traces"] = {"scripts": len(traces), "lines": sum(len(t) for t in traces), "accepted_all_fields": nacc,
+                            "rejected (model drift, not a verdict)": [{"script": corp[i]["text"][:200], "line": ln} for i, ln, _ in rejs[:5]]}
     ncorp = corpus_check(V, thorough, rnd)
     cov["corpus_scripts_compared_with_their_statements_parsed_alone"] = ncorp
     rc = V.finish()
